@@ -122,9 +122,11 @@ def run(tier, seed):
     n = 400 if tier == "quick" else 6000
     res = vlib.run_tlc("BiasedRc", "MC_BiasedRc_sim.cfg", work, workers=4, timeout=900,
                        simulate=f"num={n}", seed=seed, extra_java=None, allow_violation=False)
-    # coverage-directed: every distinct terminal state of the small as-is model that is reached through at
-    # least one FAILED compare-and-swap (random walks almost never produce a retry), one witness schedule each
-    res2 = vlib.run_tlc("BiasedRc", "MC_BiasedRc_retry.cfg", work, workers=8, timeout=900)
+    # coverage-directed: one witness schedule for EVERY distinct terminal state of the small as-is model
+    # (schedule hidden by VIEW, so BFS keeps one path per state; the ghost `retries` is part of the state, so
+    # terminal states reached through a failed compare-and-swap are separate states - random walks almost
+    # never produce a retry)
+    res2 = vlib.run_tlc("BiasedRc", "MC_BiasedRc_cover.cfg", work, workers=8, timeout=900)
     r.add_tlc(res2)
     behs = {}
     for c in res["cases"] + res2["cases"]:
